@@ -60,8 +60,8 @@ CLAIMED = {
  "C15": dict(cat="fault_enumeration", tech="syscall-level fault injection with strace (-e inject=…:when=N on the one datastore thread of a child process) at EVERY datastore call of an update cycle, hit verified from the injected run's log; follow-up cycles in fresh processes as oracle",
     text="A baseline strace of one update cycle lists every openat/write/rename/unlink on the datastore directory; each is hit with SIGKILL, ENOSPC and EIO (thorough: fake short write, second kill); afterwards every genuine older repository state must be refused and the current one must load. Scenarios: re-check, timestamp-only upgrade, all-roles upgrade, consistent snapshots, delegated role, key-rotation cycle.",
     note="Process death and failing syscalls only (no power loss); a kill after call k is a kill at entry of call k+1.", ref="§5 C15"),
- "C10": dict(cat="exploration", tech="model-based runtime monitor: a random repository model is compiled into an editing program for the real RepositoryEditor; written files are re-parsed independently, the repository is loaded through file:// and compared with the model, every target downloaded; cross-party update step with forged incoming metadata",
-    text="Programs over delegation trees to depth 3 (1..3 mixed-algorithm keys, thresholds incl. unmeetable ones), 0..45 targets per role up to 32 KiB, names of every URL class, detours (add/remove/clear, overwritten versions), adequate/inadequate signing keys, copy and symlink publication, both consistent-snapshot settings; then TargetsEditor::from_repo/sign/write by the role holder and update_delegated_targets by the owner with genuine / under-signed / wrong-key / duplicate-signature / older incoming metadata. Known finding: target names of 5 URL classes cannot be fetched from the written file:// repository.",
+ "C10": dict(cat="exploration", tech="model-based runtime monitor: a random repository model is compiled into an editing program for the real RepositoryEditor; written files are re-parsed independently, the repository is loaded through file:// (and, one case in four, through tough's HTTP transport from a static loopback web server) and compared with the model, every target downloaded; cross-party update step with forged incoming metadata",
+    text="Programs over delegation trees to depth 3 (1..3 mixed-algorithm keys, thresholds incl. unmeetable ones), 0..45 targets per role up to 32 KiB, names of every URL class, detours (add/remove/clear, overwritten versions), adequate/inadequate signing keys, copy and symlink publication, both consistent-snapshot settings; then TargetsEditor::from_repo/sign/write by the role holder and update_delegated_targets by the owner with genuine / under-signed / wrong-key / duplicate-signature / older incoming metadata. Known findings: target names of 5 URL classes cannot be fetched from the written file:// repository, 3 classes (and percent-encoded role file names) not over HTTP.",
     note="Programs the editor refuses are not judged; refusing genuine incoming metadata is an observation.", ref="§5 C10"),
 }
 
